@@ -14,6 +14,29 @@ pub static DUAL: std::sync::atomic::AtomicBool = std::sync::atomic::AtomicBool::
 pub static COUNT_CALLS: std::sync::atomic::AtomicBool = std::sync::atomic::AtomicBool::new(false);
 pub static F_CALLS: AtomicUsize = AtomicUsize::new(0);
 
+/// the iterable handed to `from_iter` by the `fromiter:` / `in:` instances: counts into `F_CALLS` (reported as `#f=` under `--calls`) how
+/// often the crate advances it (+1) and clones it (+1000) — the builds with the `tracing` feature must not touch it more often (C20)
+#[derive(Debug)]
+pub struct ProbeIter<I> {
+    it: I,
+}
+impl<I: Clone> Clone for ProbeIter<I> {
+    fn clone(&self) -> Self {
+        F_CALLS.fetch_add(1000, Ordering::SeqCst);
+        ProbeIter { it: self.it.clone() }
+    }
+}
+impl<I: Iterator> Iterator for ProbeIter<I> {
+    type Item = I::Item;
+    fn next(&mut self) -> Option<Self::Item> {
+        F_CALLS.fetch_add(1, Ordering::SeqCst);
+        self.it.next()
+    }
+    fn size_hint(&self) -> (usize, Option<usize>) {
+        self.it.size_hint()
+    }
+}
+
 #[derive(Debug)]
 pub struct E(pub u32);
 impl std::fmt::Display for E {
@@ -405,7 +428,42 @@ fn run_at(spec: &str, script: &str) -> Option<String> {
     }
 }
 
+/// `in:<j>/<LEN>/<n-ary>`: the real `from_iter(101 .. 101+LEN)` as member `j` of `merge,N` / `concat,N` / `combine,2`, the other members puppets
+fn run_in(spec: &str, script: &str) -> Option<String> {
+    let parts: Vec<&str> = spec.split('/').collect();
+    if parts.len() != 3 {
+        return None;
+    }
+    let j: usize = parts[0].parse().ok()?;
+    let len: i64 = parts[1].parse().ok()?;
+    let nary: Vec<&str> = parts[2].split(',').collect();
+    let n: usize = nary.get(1)?.parse().ok()?;
+    if j >= n {
+        return None;
+    }
+    match nary[0] {
+        "merge" | "concat" => {
+            let is_merge = nary[0] == "merge";
+            Some(run::<i64, i64>(script, fi, mki, 0, move |w| {
+                let ms: Box<[Arc<Source<i64>>]> = (0..n)
+                    .map(|i| -> Arc<Source<i64>> { if i == j { Arc::new(from_iter(ProbeIter { it: 101i64..101 + len })) } else { w.puppet(Some(i)) } })
+                    .collect::<Vec<_>>()
+                    .into_boxed_slice();
+                subscribe_to(if is_merge { Arc::new(callbag::merge(ms)) } else { Arc::new(callbag::concat(ms)) })
+            }))
+        },
+        "combine" if n == 2 => Some(run::<i64, (i64, i64)>(script, |t| format!("[{},{}]", t.0, t.1), mki, 0, move |w| {
+            let m = |i: usize| -> Arc<Source<i64>> { if i == j { Arc::new(from_iter(ProbeIter { it: 101i64..101 + len })) } else { w.puppet(Some(i)) } };
+            subscribe_to(Arc::new(combine!(m(0), m(1))))
+        })),
+        _ => None,
+    }
+}
+
 pub fn run_inst(inst: &str, script: &str) -> Option<String> {
+    if let Some(spec) = inst.strip_prefix("in:") {
+        return run_in(spec, script);
+    }
     if let Some(spec) = inst.strip_prefix("chain:") {
         return run_chain(spec, script);
     }
@@ -494,10 +552,10 @@ pub fn run_inst(inst: &str, script: &str) -> Option<String> {
         },
         "share" => run::<i64, i64>(script, fi, mki, 0, |w| subscribe_to(Arc::new(share(w.puppet(None))))),
         "fromiter" => match parts.get(1)? {
-            &"inf" => run::<i64, i64>(script, fi, mki, 0, |_w| subscribe_to(Arc::new(from_iter(101i64..)))),
+            &"inf" => run::<i64, i64>(script, fi, mki, 0, |_w| subscribe_to(Arc::new(from_iter(ProbeIter { it: 101i64.. })))),
             _ => {
                 let n = num(1)?;
-                run::<i64, i64>(script, fi, mki, 0, |_w| subscribe_to(Arc::new(from_iter(101i64..101 + n))))
+                run::<i64, i64>(script, fi, mki, 0, |_w| subscribe_to(Arc::new(from_iter(ProbeIter { it: 101i64..101 + n }))))
             },
         },
         "foreach" => run::<i64, i64>(script, fi, mki, 0, |w| {
